@@ -1587,8 +1587,6 @@ PARTIAL = [
     '(translator + effect table) is not proved, threads and aliasing below Python cannot be exhibited by the model',
     'polygonize: freshness of the output is not claimed statically (scalar element loads `values[ij]` are indistinguishable from '
     'views in the IR); dynamic probe only',
-    'output coordinates: xarray shares coordinate variables between input and output DataArray objects; the write probe targets '
-    'the output data buffer only',
     'local.* take a Dataset and return a bare DataArray (no coords/dims of the input): identity clause not applied to them; '
     'zonal.crosstab zone_ids excluded from the protected roots (dict-key conflation)',
     'dict keys and container members are not distinguished by the IR (field-insensitive); nested containers of arrays written '
@@ -1599,8 +1597,9 @@ PARTIAL = [
     'viewshed, regions, trim, crop, polygonize; lat/lon dimension names for viewshed, true_color, canvas_like; integer templates '
     'for generate_terrain; float data for local.rank) raise; such calls are counted as errors, never flagged, and their inputs '
     'are still compared with the snapshot',
-    'attrs containers: xarray copies the attrs dict shallowly, so nested mutable attr VALUES (lists, dicts) and coordinate '
-    'variables are shared between input and output objects of every wrapper; the write probe targets array memory only',
+    'attrs containers: xarray copies the attrs dict shallowly, so nested mutable attr VALUES (lists, dicts) are shared between '
+    'input and output of every wrapper in the unchanged code; not probed. Non-index coordinate variables ARE probed '
+    '(np.shares_memory + write-and-restore): the unchanged wrappers copy them; index coordinates (pandas indexes) are immutable',
 ]
 LEVEL_TEXT = ('Proved for all programs, all traces (any order/repetition of the program\'s instructions, i.e. all control flow), all '
               'heaps and all protected location sets: the boolean checker is sound (C10_writes_nothing_sound, '
@@ -2026,6 +2025,41 @@ def _observe(case):
             d = [x for x in d if x not in obs['modified'].get(p, [])]
             if d:
                 obs['probe_changed'].append(p)
+    # the same for the output's NON-INDEX coordinate variables (scalar band / spatial_ref / time, 1-D labels, 2-D
+    # lat/lon grids).  Baseline established on the unchanged code: xr.DataArray(out, coords=agg.coords, dims=...,
+    # attrs=...) COPIES the coordinate variables (np.shares_memory False for every wrapper); only the documented
+    # windows (trim / crop slices) share them.
+    obs['coord_shares'] = []
+    obs['coord_probe_changed'] = []
+    if isinstance(res, xr.DataArray) and ent['out'] != 'window':
+        for k in list(res.coords):
+            if k in res.indexes:
+                continue
+            try:
+                carr = np.asarray(res.coords[k].variable.values)
+            except Exception:         # noqa
+                continue
+            if not isinstance(carr, np.ndarray) or carr.dtype.kind not in 'iuf':
+                continue
+            for p in rasters:
+                for k2 in rasters[p].coords:
+                    if k2 in rasters[p].indexes:
+                        continue
+                    src = np.asarray(rasters[p].coords[k2].variable.values)
+                    if src.dtype.kind in 'iuf' and np.shares_memory(carr, src):
+                        obs['coord_shares'].append([k, p])
+            if carr.flags.writeable:
+                saved = carr.copy()
+                try:
+                    carr[...] = carr + 7
+                except Exception:     # noqa
+                    continue
+                for p in rasters:
+                    d = _diff_raster(rasters[p], bases[p], snaps[p], allow_widen=allow_widen)
+                    d = [x for x in d if x not in obs['modified'].get(p, []) and x.startswith('coordinate')]
+                    if d and p not in obs['probe_changed']:
+                        obs['coord_probe_changed'].append([k, p, d[0]])
+                carr[...] = saved         # restore
     return obs
 
 
@@ -2260,6 +2294,12 @@ def evaluate(ctx, obs, pred):
         ctx.violation('oracle', '%s(%s, dtype=%s, layout=%s): writing to the output changed argument `%s`' % (
             fn, c['backend'], c['dtype'], c['layout'], p), dict(c, param=p),
             key='perlin-numpy-writes-template' if (perlin and p == 'agg') else None)
+    for (k, p) in obs.get('coord_shares', []):
+        ctx.violation('oracle', '%s(%s, dtype=%s, layout=%s): the output\'s coordinate `%s` shares memory with a coordinate of argument `%s`' % (
+            fn, c['backend'], c['dtype'], c['layout'], k, p), dict(c, param=p, coord=k))
+    for (k, p, dd) in obs.get('coord_probe_changed', []):
+        ctx.violation('oracle', '%s(%s, dtype=%s, layout=%s): writing to the output\'s coordinate `%s` changed argument `%s` (%s)' % (
+            fn, c['backend'], c['dtype'], c['layout'], k, p, dd), dict(c, param=p, coord=k))
     if obs['identity']:
         ctx.violation('oracle', '%s(%s, dtype=%s, layout=%s): output does not keep the input\'s identity: %s' % (
             fn, c['backend'], c['dtype'], c['layout'], '; '.join(obs['identity'])), dict(c, identity=obs['identity']))
